@@ -161,6 +161,10 @@ def copyEntry (a : Args) (srcSub : List Snap) (srcRel dstFinal : Path) (s : St) 
       | none => s.tree
     return { s with tree := tree ++ [node], notif := s.notif ++ [(target, false)], inodes := inodes }
 
+/-- does the source land INSIDE the destination path, under its own base name? (prepareTargetDir) -/
+def landsInside (cdc srcIsDir destExists destIsDir : Bool) : Bool :=
+  (!cdc && srcIsDir && destExists) || (!srcIsDir && destExists && destIsDir)
+
 /-- where the source lands in the destination root (the basename / dir-contents / file-into-directory rule), given the
 resolved destination path; `none` = a parent cannot be created -/
 def landing (a : Args) (srcIsDir : Bool) (dstTree : List Snap) (dstRel : Path) (dstHasBase : Bool) : Option Path :=
@@ -172,7 +176,7 @@ def landing (a : Args) (srcIsDir : Bool) (dstTree : List Snap) (dstRel : Path) (
   | .error _ => none
   | .ok t1 =>
     let dest := (findN t1 dstRel).map (·.st.isDir)
-    some (if (!a.cdc && srcIsDir && dest.isSome) || (!srcIsDir && dest.isSome && dest.getD false)
+    some (if landsInside a.cdc srcIsDir dest.isSome (dest.getD false)
       then joinP2 dstRel (let b := baseB a.src; if b = [47] || b = [dot] then [] else b) else dstRel)
 
 /-- one source (already resolved to `srcRel`, named `srcArg` in the call) copied onto the working tree `t1`
@@ -186,7 +190,7 @@ def copyOne (a : Args) (srcTree : List Snap) (srcRel srcArg dstRel : Path) (s0 :
     let dest := (findN t1 dstRel).map (·.st.isDir)
     let destExists := dest.isSome
     let destIsDir := dest.getD false
-    let dstFinal := if (!a.cdc && srcIsDir && destExists) || (!srcIsDir && destExists && destIsDir)
+    let dstFinal := if landsInside a.cdc srcIsDir destExists destIsDir
       then joinP2 dstRel (let b := baseB srcArg; if b = [47] || b = [dot] then [] else b) else dstRel
     let target := if a.cdc && srcIsDir && !destExists then dstFinal else parentOf dstFinal
     match mkdirAll a t1 target with
